@@ -415,7 +415,7 @@ def run_gf_all(results, risky=()):
 def evaluate(src, modvar, with_gf=True):
     """everything about one case that needs the real code and gfortran (no Lean)"""
     r = real_inline(src)
-    r["modvar"] = modvar
+    r["modvar"] = c07_gen.modvars_of(src)      # module-level variables (printed after the caller's own)
     r["src"] = src
     return run_gf(r) if with_gf else r
 
